@@ -291,6 +291,22 @@ pub fn signed_announce_with_timestamp(
     SignedAnnounce::new_with_timestamp(signer, info_hash, timestamp)
 }
 
+// === Raw access to a node's command channel ===
+
+/// Same as the crate-private `Dht::put_inner`: the caller owns the reply channel.
+pub fn put_raw(
+    dht: &crate::Dht,
+    request: PutRequestSpecific,
+    extra_nodes: Option<Box<[Node]>>,
+) -> Receiver<Result<Id, crate::errors::PutError>> {
+    dht.put_inner(request, extra_nodes)
+}
+
+/// Enqueue a lookup whose results go to a caller-owned [ResponseSender].
+pub fn get_raw(dht: &crate::Dht, request: GetRequestSpecific, sender: ResponseSender) {
+    dht.send(ActorMessage::Get(request, sender))
+}
+
 // === A Dht handle whose actor side is played by the harness ===
 
 /// The receiving end of a [crate::Dht]'s command channel.
@@ -336,7 +352,7 @@ impl FakeActor {
 
 // === Snapshots: plain data describing a node's internal state ===
 
-#[derive(Clone, Debug, PartialEq)]
+#[derive(Clone, Debug, PartialEq, Eq, Hash)]
 pub struct NodeSnapshot {
     pub id: Id,
     pub address: SocketAddrV4,
@@ -356,14 +372,14 @@ pub struct TableSnapshot {
     pub responders_subnets_sum: usize,
 }
 
-#[derive(Clone, Debug, PartialEq)]
+#[derive(Clone, Debug, PartialEq, Eq, Hash)]
 pub struct InflightSnapshot {
     pub tid: u32,
     pub to: SocketAddrV4,
     pub sent_at: u64,
 }
 
-#[derive(Clone, Debug, PartialEq)]
+#[derive(Clone, Debug, PartialEq, Eq, Hash)]
 pub struct SocketSnapshot {
     pub server_mode: bool,
     pub local_addr: SocketAddrV4,
@@ -379,14 +395,14 @@ pub struct SocketSnapshot {
     pub poll_interval: Duration,
 }
 
-#[derive(Clone, Debug, PartialEq)]
+#[derive(Clone, Debug, PartialEq, Eq, Hash)]
 pub struct TokensSnapshot {
     pub prev_secret: [u8; 20],
     pub curr_secret: [u8; 20],
     pub last_updated: u64,
 }
 
-#[derive(Clone, Debug, PartialEq)]
+#[derive(Clone, Debug, PartialEq, Eq, Hash)]
 pub struct MutableSnapshot {
     pub target: Id,
     pub key: [u8; 32],
@@ -397,7 +413,7 @@ pub struct MutableSnapshot {
 }
 
 /// All stores are listed most-recently-used first.
-#[derive(Clone, Debug, PartialEq)]
+#[derive(Clone, Debug, PartialEq, Eq, Hash)]
 pub struct ServerSnapshot {
     pub tokens: TokensSnapshot,
     pub peers: Vec<(Id, Vec<(Id, SocketAddrV4)>)>,
@@ -432,7 +448,7 @@ pub struct CachedQuerySnapshot {
     pub request_kind: u8,
 }
 
-#[derive(Clone, Debug, PartialEq)]
+#[derive(Clone, Debug, PartialEq, Eq, Hash)]
 pub struct IterativeQuerySnapshot {
     pub target: Id,
     pub request_kind: u8,
@@ -454,7 +470,7 @@ pub struct PutQuerySnapshot {
     pub request: PutRequestSpecific,
 }
 
-#[derive(Clone, Debug, PartialEq)]
+#[derive(Clone, Debug, PartialEq, Hash)]
 pub struct CoreSnapshot {
     pub bootstrap: Vec<SocketAddrV4>,
     pub routing_table: TableSnapshot,
@@ -471,11 +487,45 @@ pub struct CoreSnapshot {
     pub server_mode: bool,
 }
 
-#[derive(Clone, Debug, PartialEq)]
+#[derive(Clone, Debug, PartialEq, Hash)]
 pub struct ActorSnapshot {
     /// (target, number of parked callers)
     pub put_senders: Vec<(Id, usize)>,
     pub get_senders: Vec<(Id, usize)>,
     pub socket: SocketSnapshot,
     pub core: CoreSnapshot,
+}
+
+impl std::hash::Hash for TableSnapshot {
+    fn hash<H: std::hash::Hasher>(&self, state: &mut H) {
+        self.id.hash(state);
+        self.buckets.hash(state);
+        self.dht_size_estimates_count.hash(state);
+        self.dht_size_estimates_sum.to_bits().hash(state);
+        self.responders_samples_count.hash(state);
+        self.responders_size_estimates_sum.to_bits().hash(state);
+        self.responders_subnets_sum.hash(state);
+    }
+}
+
+impl std::hash::Hash for CachedQuerySnapshot {
+    fn hash<H: std::hash::Hasher>(&self, state: &mut H) {
+        self.target.hash(state);
+        self.closest_responding_nodes.hash(state);
+        self.dht_size_estimate.to_bits().hash(state);
+        self.responders_dht_size_estimate.to_bits().hash(state);
+        self.subnets.hash(state);
+        self.request_kind.hash(state);
+    }
+}
+
+impl std::hash::Hash for PutQuerySnapshot {
+    fn hash<H: std::hash::Hasher>(&self, state: &mut H) {
+        self.target.hash(state);
+        self.stored_at.hash(state);
+        self.inflight_requests.hash(state);
+        self.errors.hash(state);
+        self.extra_nodes.hash(state);
+        format!("{:?}", self.request).hash(state);
+    }
 }
